@@ -266,9 +266,9 @@ kproof! {
 // everywhere else ("no other acceptable stream overlaps").  Header parsing, signature table, cursor
 // arithmetic and thresholds are the real code.
 // ---------------------------------------------------------------------------
-pub static mut ORACLE_LEN: usize = usize::MAX;
-pub static mut ORACLE_CS: usize = 0;
-pub static mut ORACLE_CALLS_OK: u32 = 0;
+pub static mut ORACLE_LEN: usize = 0x5EED_0000_0000_0011;
+pub static mut ORACLE_CS: usize = 0x5EED_0000_0000_0012;
+pub static mut ORACLE_CALLS_OK: u32 = 0x5EED_0013;
 pub fn oracle_decompress(d: &[u8], verify: bool, _l: u32) -> core::result::Result<DecompressResult, crate::preflate_error::PreflateError> {
     unsafe {
         if d.len() == ORACLE_LEN {
@@ -404,7 +404,7 @@ kproof! { fn k01_gzip_hdr_20() { gzip_hdr::<20>(); } }
 // ---------------------------------------------------------------------------
 // IDAT arm of the scanner: what is emitted must be reconstructible (C01)
 // ---------------------------------------------------------------------------
-pub static mut IDAT_PAYLOAD_LEN: usize = 0;
+pub static mut IDAT_PAYLOAD_LEN: usize = 0x5EED_0000_0000_0014;
 /// parse_idat stand-in with CONCRETE sizes (so the scanner's cursor stays concrete): one chunk of 1040 bytes
 pub fn fixed_parse_idat(png: &[u8], _lvl: u32) -> Result<(IdatContents, Vec<u8>)> {
     if png.len() < 1052 { return err_exit_code(ExitCode::InvalidIDat, ""); }
@@ -452,21 +452,21 @@ kproof! {
 // bytes is left, so the cursor may be symbolic.  The contract of next_signature is discharged by
 // k01n_next_signature_contract (below) and k06d_signature_table.
 // ---------------------------------------------------------------------------
-pub static mut SIG_CALLS: u32 = 0;
-pub static mut SIG_MAX: u32 = 0;
-pub static mut IDAT_CALL: bool = false;
+pub static mut SIG_CALLS: u32 = 0x5EED_0015;
+pub static mut SIG_MAX: u32 = 0x5EED_0016;
+pub static mut IDAT_CALL: u32 = 0x5EED_0017; // flag: 1 = set (not a bool: see the note on static mut in hash_chain_holder.rs)
 /// inductive-step mode: the first hit is a zlib header whose stream is accepted (any position, any consumed length),
 /// which puts the scanner into an ARBITRARY reachable state prev_index == P, 3 <= P <= n, with the chunks so far tiling
 /// [0, P); the hit after it is fully symbolic.  (After any accept prev_index == index; after a reject only index moves.)
-pub static mut FIRST_ZLIB_ACCEPT: bool = false;
-pub static mut DEC_CALLS: u32 = 0;
+pub static mut FIRST_ZLIB_ACCEPT: u32 = 0x5EED_0018; // flag: 1 = set
+pub static mut DEC_CALLS: u32 = 0x5EED_0019;
 /// CONTRACT of next_signature: None (index untouched), or Some(kind) with the new index in old..=len-2.
 /// Kind and position of every hit are symbolic.  At most SIG_MAX hits per file (the stated bound).
 pub(crate) fn contract_next_signature(src: &[u8], index: &mut usize) -> Option<Signature> {
     // the call counter is advanced unconditionally and first, so that it stays concrete under symbolic execution
     let c = unsafe { let c = SIG_CALLS; SIG_CALLS += 1; c };
     if c >= unsafe { SIG_MAX } { return None; }
-    let forced = c == 0 && unsafe { FIRST_ZLIB_ACCEPT };
+    let forced = c == 0 && unsafe { FIRST_ZLIB_ACCEPT } == 1;
     if src.len() < 2 || (!forced && kani::any()) { return None; }
     let k: u8 = if forced { SIG_ZLIB } else { kani::any() };
     let i: usize = kani::any();
@@ -484,7 +484,7 @@ fn big_plain() -> Vec<u8> {
 /// below the threshold (empty Vec: no allocation); an accepted one carries 1025 bytes of (uninitialised) plaintext
 pub fn contract_decompress_light(compressed_data: &[u8], _verify: bool, _loglevel: u32) -> core::result::Result<DecompressResult, crate::preflate_error::PreflateError> {
     let dc = unsafe { let d = DEC_CALLS; DEC_CALLS += 1; d };
-    let forced = dc == 0 && unsafe { FIRST_ZLIB_ACCEPT };
+    let forced = dc == 0 && unsafe { FIRST_ZLIB_ACCEPT } == 1;
     if forced {
         kani::assume(!compressed_data.is_empty());
         let cs: usize = kani::any();
@@ -498,8 +498,8 @@ pub fn contract_decompress_light(compressed_data: &[u8], _verify: bool, _logleve
     let cs: usize = kani::any();
     kani::assume(cs >= 1 && cs <= compressed_data.len());
     // (the PNG arm thresholds on the chunk length, not on the plaintext: no need for a long plaintext there)
-    let big: bool = kani::any() && !unsafe { IDAT_CALL };
-    unsafe { IDAT_CALL = false; }
+    let big: bool = kani::any() && unsafe { IDAT_CALL } != 1;
+    unsafe { IDAT_CALL = 0; }
     let plain = if big { big_plain() } else { Vec::new() };
     Ok(DecompressResult { plain_text: plain, prediction_corrections: Vec::new(), compressed_size: cs, parameters: dummy_params() })
 }
@@ -520,7 +520,7 @@ pub fn contract_parse_idat_one(png: &[u8], _lvl: u32) -> Result<(IdatContents, V
     }
     let c: usize = kani::any();
     kani::assume(c >= 6 && c <= png.len() - 12);
-    unsafe { IDAT_CALL = true; }
+    unsafe { IDAT_CALL = 1; }
     let mut payload: Vec<u8> = Vec::with_capacity(SCAN_N);
     unsafe { payload.set_len(c - 6); }
     let mut sizes: Vec<u32> = Vec::with_capacity(1);
@@ -543,7 +543,7 @@ pub fn contract_skip_gzip_any<R: Read>(reader: &mut R) -> Result<()> {
 const SCAN_N: usize = 1100;
 fn scan_cursor<const HITS: usize>() { scan_cursor_x::<HITS>(false) }
 fn scan_cursor_x<const HITS: usize>(first_zlib_accept: bool) {
-    unsafe { SIG_CALLS = 0; SIG_MAX = HITS as u32; IDAT_CALL = false; DEC_CALLS = 0; FIRST_ZLIB_ACCEPT = first_zlib_accept; }
+    unsafe { SIG_CALLS = 0; SIG_MAX = HITS as u32; IDAT_CALL = 0; DEC_CALLS = 0; FIRST_ZLIB_ACCEPT = first_zlib_accept as u32; }
     let data = [0u8; SCAN_N];
     let n: usize = kani::any();
     kani::assume(n <= SCAN_N);
